@@ -68,6 +68,9 @@ def one_batch(seed: int) -> list:
             rec("get_values", form + "-iter", a, lambda c=c: [vals(r) for r in table.iter_values(c)])
             rec("get_cells", form, a, lambda c=c: [codes(r) for r in table.get_cells(c)])
             rec("get_values_flat", form, a, lambda c=c: vals(table.get_values(c, flat=True)))
+            for comp in (True, False):
+                ct = rng.choice(["all", "float", " Float "])
+                rec("get_values_typed", form, dict(a, complete=comp), lambda c=c, comp=comp, ct=ct: [vals(r) for r in table.get_values(c, cell_type=ct, complete=comp)])
             rec("get_cells_flat", form, a, lambda c=c: codes(table.get_cells(c, flat=True)))
         # rows
         rows_forms = [("tuple2", (y, t)), ("str", f"{y + 1}:{t + 1}"), ("tuple4", (0, y, w, t))]
@@ -87,6 +90,8 @@ def one_batch(seed: int) -> list:
                 rec("get_columns_style", form, dict(a, s=sc), lambda c=c, sc=sc: [tl.col_code(k) for k in table.get_columns(c, style=f"co{sc}")])
         for form, c in (("int", x), ("str", alpha(x)), ("neg", neg(x, w)), ("lower", alpha(x).lower())):
             rec("get_column_values", form, a, lambda c=c: vals(table.get_column_values(c)))
+            for comp in (True, False):
+                rec("get_column_values_typed", form, dict(a, complete=comp), lambda c=c, comp=comp: vals(table.get_column_values(c, cell_type="all", complete=comp)))
         # row-level range
         row = table.get_row(y)
         rw = row.width
@@ -107,7 +112,7 @@ def generate(n: int, seed: int, procs=None) -> list:
 
 
 DEPTH = {"get_value": 0, "get_cell": 0, "get_values": 2, "get_cells": 2, "get_rows": 2, "get_columns": 1,
-         "get_values_flat": 1, "get_cells_flat": 1, "get_columns_style": 1,
+         "get_values_flat": 1, "get_cells_flat": 1, "get_columns_style": 1, "get_values_typed": 2, "get_column_values_typed": 1,
          "get_row": 1, "get_column_values": 1, "row_get_values": 1}
 
 
